@@ -231,17 +231,44 @@ func wlCollection(w *wl) {
 
 func wlGenID(w *wl) {
 	c := resource.NewCollection()
+	fixed := []string{"k1", "k2", "k3"}
 	w.par(func(id int, rng *rand.Rand) {
 		for i := 0; w.more(i); i++ {
-			var got string
-			res, err := c.Add("", &traits.Child{Name: fmt.Sprint(id, "-", i)}, resource.WithGenIDIfAbsent(), resource.WithIDCallback(func(s string) { got = s }))
-			readMsg(res)
-			if err == nil && rng.Intn(2) == 0 {
-				m, _ := c.Get(got)
-				readMsg(m)
-			}
-			if err == nil && rng.Intn(3) == 0 {
-				_, _ = c.Delete(got, resource.WithAllowMissing(true))
+			switch rng.Intn(7) {
+			default:
+				// generated ids, with an id callback that the caller uses right away
+				var got string
+				res, err := c.Add("", &traits.Child{Name: fmt.Sprint(id, "-", i)}, resource.WithGenIDIfAbsent(), resource.WithIDCallback(func(s string) {
+					got = s
+					if rng.Intn(8) == 0 {
+						time.Sleep(50 * time.Microsecond) // a callback that takes its time
+					}
+				}))
+				readMsg(res)
+				if err == nil && rng.Intn(2) == 0 {
+					m, _ := c.Get(got)
+					readMsg(m)
+				}
+				if err == nil && rng.Intn(3) != 0 {
+					_, _ = c.Delete(got, resource.WithAllowMissing(true))
+				}
+			case 3:
+				// …next to writers that choose their ids themselves
+				k := fixed[rng.Intn(len(fixed))]
+				if rng.Intn(3) == 0 {
+					_, _ = c.Delete(k, resource.WithAllowMissing(true))
+				} else {
+					res, _ := c.Update(k, &traits.Child{Name: k, Traits: []*traits.Trait{{Name: fmt.Sprint(i)}}}, resource.WithCreateIfAbsent(), resource.WithGenIDIfAbsent())
+					readMsg(res)
+				}
+			case 4:
+				for _, m := range c.List() {
+					readMsg(m)
+				}
+			case 5:
+				ctx, cancel := context.WithTimeout(context.Background(), time.Duration(rng.Intn(3)+1)*time.Millisecond)
+				drain(ctx, c.Pull(ctx, resource.WithUpdatesOnly(rng.Intn(2) == 0)), 20, func(c *resource.CollectionChange) { readMsg(c.OldValue); readMsg(c.NewValue) })
+				cancel()
 			}
 		}
 	})
